@@ -75,6 +75,8 @@ type VC struct {
 	compTypes map[string]types.Type
 	knownTag map[string]int
 	boxedLocals []boxed
+	regions  map[string]string
+	arrayLits map[string][]string
 	deferred []string
 	asserts  []string
 	obligs   []*Obligation
@@ -92,7 +94,7 @@ type VC struct {
 
 func newVC(p *Program, name string) *VC {
 	return &VC{prog: p, fnName: name, declared: map[string]bool{}, inlined: map[string]bool{}, assumed: map[string]bool{},
-		havocked: map[string]bool{}, structs: map[string]bool{}, litCache: map[string]string{}, compSorts: map[string]string{}, nonNil: map[string]bool{}, compTypes: map[string]types.Type{}, knownTag: map[string]int{}, tags: map[string]int{}, fnIDs: map[*ssa.Function]int{}}
+		havocked: map[string]bool{}, structs: map[string]bool{}, litCache: map[string]string{}, compSorts: map[string]string{}, arrayLits: map[string][]string{}, regions: map[string]string{}, nonNil: map[string]bool{}, compTypes: map[string]types.Type{}, knownTag: map[string]int{}, tags: map[string]int{}, fnIDs: map[*ssa.Function]int{}}
 }
 
 func (vc *VC) fresh(base string) string {
@@ -167,15 +169,14 @@ func (vc *VC) assume(pc, f string) {
 func (vc *VC) obligeLater(kind, name, pc, goal string, pos token.Position, desc string) *Obligation {
 	n := len(vc.asserts)
 	o := vc.oblige(kind, name, pc, goal, pos, desc)
+	last := vc.asserts[len(vc.asserts)-1]
 	vc.asserts = vc.asserts[:n]
-	vc.deferred = append(vc.deferred, o.Goal)
+	vc.deferred = append(vc.deferred, last)
 	return o
 }
 
 func (vc *VC) flushDeferred() {
-	for _, g := range vc.deferred {
-		vc.assert(g)
-	}
+	vc.asserts = append(vc.asserts, vc.deferred...)
 	vc.deferred = nil
 }
 
@@ -203,8 +204,14 @@ func (vc *VC) oblige(kind, name, pc, goal string, pos token.Position, desc strin
 	}
 	o := &Obligation{Name: name, Kind: kind, Fn: vc.fnName, Goal: g, NAssert: len(vc.asserts), Pos: pos, Desc: desc, vc: vc, Props: vc.props}
 	vc.obligs = append(vc.obligs, o)
-	// after checking, the fact may be assumed downstream
-	vc.assert(g)
+	// after checking, the fact may be assumed downstream — but only as far as it is claimed: an obligation
+	// weakened by a known-finding region is assumed outside that region only
+	if rg, ok := vc.regions[name]; ok && rg != "" {
+		o.Goal = g
+		vc.assert(fmt.Sprintf("(=> (not %s) %s)", rg, g))
+	} else {
+		vc.assert(g)
+	}
 	return o
 }
 
@@ -402,6 +409,7 @@ type Val struct {
 	Typ   types.Type
 	Sort  string // for spec-only values without a Go type
 	Fn    *ssa.Function
+	Lit   []string // slice over a fresh array literal: its element terms (variadic arguments)
 }
 
 type State struct {
